@@ -1,22 +1,28 @@
 #!/bin/bash
-# usage: tools/mutate.sh <file-under-/repo> <python-regex-old> <new> <ID> [tier]
-# Applies a one-off textual mutation to /repo, runs ./check <ID>, reverts. For detection demos only.
+# usage: tools/mutate.sh <patch-file | -e 'file:::old:::new'> <ID> [tier]
+# Detection demo WITHOUT touching /repo: makes (or reuses) the scratch worktree $MUT_WT (default /tmp/mut-wt) of
+# /repo's HEAD, applies the change there, runs the check against it through run_on_tree.sh and
+# restores the worktree.
 set -u
-FILE="$1"; OLD="$2"; NEW="$3"; ID="$4"; TIER="${5:-quick}"
-cd /repo || exit 2
-if ! git diff --quiet; then echo "repo dirty, refusing"; exit 2; fi
-python3 - "$FILE" "$OLD" "$NEW" <<'PY'
-import sys,re
-f,old,new=sys.argv[1:4]
-s=open(f).read()
-if old not in s:
-    print("pattern not found"); sys.exit(3)
-s=s.replace(old,new,1)
-open(f,'w').write(s)
+WT="${MUT_WT:-/tmp/mut-wt}"
+if [ ! -d "$WT" ]; then git -C /repo worktree add --detach "$WT" HEAD >/dev/null 2>&1 || exit 2; fi
+git -C "$WT" checkout -q --detach "$(git -C /repo rev-parse HEAD)" 2>/dev/null; git -C "$WT" checkout -q -- . 
+if [ "$1" = "-e" ]; then
+  python3 - "$WT" "$2" <<'PY' || exit 3
+import sys
+wt,spec=sys.argv[1:3]
+f,old,new=spec.split(':::')
+p=wt+'/'+f
+s=open(p).read()
+if old not in s: print("pattern not found"); sys.exit(3)
+open(p,'w').write(s.replace(old,new,1))
 PY
-rc=$?
-if [ $rc -ne 0 ]; then git checkout -- .; exit $rc; fi
-git --no-pager diff --stat
-cd /verif && ./check "$ID" --tier "$TIER" | tail -4
-echo "exit=$?"
-git -C /repo checkout -- .
+  shift 2
+else
+  git -C "$WT" apply "$1" || exit 3; shift
+fi
+ID="$1"; TIER="${2:-quick}"
+git -C "$WT" --no-pager diff --stat
+RUN_ON_TREE_TARGET="$WT.target" /verif/tools/run_on_tree.sh "$WT" "$ID" --tier "$TIER" | tail -6
+echo "exit=${PIPESTATUS[0]}"
+git -C "$WT" checkout -q -- .
